@@ -176,6 +176,9 @@ func c01Case(c *ctxT, r *gen.R, spec stackSpec) {
 func runC01(c *ctxT) {
 	// reassembly under adversarial schedules of genuine fragments, incl. a sender that restarts (C10's cases): no mixtures
 	runC10n(c, c.scale(60, 800))
+	for i := 0; i < c.scale(6, 40); i++ {
+		udpConcurrent(c, i)
+	}
 	r := c.rng
 	n := c.scale(160, 3000)
 	for i := 0; i < n; i++ {
